@@ -211,6 +211,13 @@ func cmdCheck(args []string) int {
 		}
 		r.Obs = keep
 	}
+	for _, o := range obs {
+		for _, f := range kf.Findings {
+			if f.Obligation == o.Name && f.Property == pid {
+				o.NoRetry = true
+			}
+		}
+	}
 	results := SolveAll(obs, timeout, confirm, runtime.NumCPU())
 	byOb := map[*Obligation]*Result{}
 	for _, r := range results {
